@@ -270,7 +270,9 @@ func (wr *strictResponseWrapper) Header() http.Header {
 }
 
 func (wr *strictResponseWrapper) flushBodyContents() error {
-	wr.w.WriteHeader(wr.status)
+	if wr.headerWritten {
+		wr.w.WriteHeader(wr.status)
+	}
 	_, err := wr.w.Write(wr.body.Bytes())
 	return err
 }
